@@ -1,6 +1,7 @@
 package main
 
 import (
+	"sort"
 	"os"
 	"fmt"
 	"go/token"
@@ -129,6 +130,20 @@ func (g *VCGen) run() {
 		sv := g.havocVal(p)
 		g.assume(g.allocFact(sv.T, p.Type(), g.entry))
 		g.paramVals[recvName(fn, i, p)] = sv
+		// heap well-formedness at entry, one level deep: what the fields of a struct passed by pointer refer to
+		// was allocated before the call
+		if pt, isPtr := p.Type().Underlying().(*types.Pointer); isPtr {
+			if _, isStruct := pt.Elem().Underlying().(*types.Struct); isStruct && g.so.sortOf(p.Type()) == "Int" {
+				func() {
+					defer func() { recover() }()
+					heap := g.so.heapFor(pt.Elem())
+					cell := fmt.Sprintf("(select %s %s)", g.heapTerm(g.entry, heap), sv.T)
+					if f := g.allocFact(cell, pt.Elem(), g.entry); f != "true" {
+						g.assume(fmt.Sprintf("(=> (not (= %s 0)) %s)", sv.T, f))
+					}
+				}()
+			}
+		}
 		if i == 0 && fn.Signature.Recv() != nil {
 			if _, isPtr := p.Type().Underlying().(*types.Pointer); isPtr && !(g.fc != nil && hasProp(g.fc.Props, "nilrecv")) {
 				g.assume(fmt.Sprintf("(not (= %s 0))", sv.T))
@@ -156,6 +171,7 @@ func (g *VCGen) run() {
 			g.assume(g.lemmaInstance(env, u))
 		}
 	}
+	g.initDeferFlags()
 	// vacuity guard: precondition satisfiable
 	g.obls = append(g.obls, Obligation{Name: "vacuity.requires", Kind: "cover", Guard: "true", Goal: "false", NAssert: len(g.asserts),
 		Pos: fn.Prog.Fset.Position(fn.Pos()), Text: "precondition is satisfiable (must be sat)", Func: fn.String()})
@@ -164,6 +180,23 @@ func (g *VCGen) run() {
 	}
 	if g.retCount == 0 && !(g.fc != nil && g.fc.PanicsIff != nil) {
 		g.warnings = append(g.warnings, "function has no reachable return")
+	}
+	// a cut-point clause that attaches to no site (no such call left, or its variables are nowhere in scope) checks
+	// nothing: the code no longer has the shape the contract speaks about
+	if g.fc != nil {
+		var names []string
+		for name := range g.fc.Before {
+			names = append(names, name)
+		}
+		sort.Strings(names)
+		for _, name := range names {
+			for k, cl := range g.fc.Before[name] {
+				if !g.beforeApplied[fmt.Sprintf("%s.%d", name, k)] {
+					g.obls = append(g.obls, Obligation{Name: fmt.Sprintf("before.%s.%d.unattached", name, k), Kind: "requires", Guard: "true", Goal: "false", NAssert: 0,
+						Pos: fn.Prog.Fset.Position(fn.Pos()), Text: "the clause 'before " + name + ": " + cl.Text + "' attaches to no site of the function", Func: fn.String()})
+				}
+			}
+		}
 	}
 }
 
@@ -1069,7 +1102,13 @@ func (g *VCGen) unop(x *ssa.UnOp) {
 			}
 		}
 		sv := g.define(x, g.load(g.cur, a))
-		g.assumeHere(g.allocFact(sv.T, x.Type(), g.cur))
+		allocSt := g.cur
+		if a.Heap != "" && g.entry != nil && g.cur.epoch == g.entry.epoch && g.heapTerm(g.cur, a.Heap) == g.heapTerm(g.entry, a.Heap) {
+			// this heap has not been written since entry (allocation writes it too): the value was already there at
+			// entry, so what it refers to was allocated by then
+			allocSt = g.entry
+		}
+		g.assumeHere(g.allocFact(sv.T, x.Type(), allocSt))
 		if a.Imm {
 			if inv, ok := g.fieldInv(a); ok && !g.freshImm[rootPointer(x.X)] {
 				env := &SpecEnv{g: g, vars: map[string]SpecVal{"value": sv}, cur: g.cur, old: g.cur, pkg: g.eng.typesPkg(inv.pkg)}
